@@ -25,6 +25,17 @@ CHECKS = {
             "real": ["src/d_string.c (all 14 public functions)", "glibc malloc/realloc under ASan", "glibc vsnprintf"],
             "stub": ["realloc placement policy (always-move buggify)", "starting capacity (hook H1)"],
             "sim_time": "not meaningful: no clock is read by DString"},
+    "C18": {"engine": "pool", "variants": ["A"], "quick": 2500, "thorough": 60000, "quick_s": 70, "thorough_s": 560,
+            "real": ["src/token.c pool functions", "src/object_pool.c", "the whole parser/writer (conversions and parses)", "glibc malloc under ASan"],
+            "stub": ["slab size (hook H2)", "DString starting capacity (hook H1)", "realloc placement", "clock and libc rand() (simulated, per operation)"],
+            "expect_probes": ["inspect_after_inner_drain", "slab_crossed", "reinit_after_free", "depth_ge_3", "nested_init"],
+            "sim_time": "clock values are per-operation environment only; no timers exist"},
+    "C05": {"engine": "hist", "variants": ["A", "B"], "quick": 5000, "thorough": 120000, "quick_s": 80, "thorough_s": 570,
+            "real": ["the whole library incl. CLI main() driven in-process", "glibc stdio over fopencookie"],
+            "stub": ["time()/clock() (simulated clock, distinct per operation)", "rand()/srand() (simulated libc PRNG with srand semantics)", "file system under /sim (in-memory)",
+                     "realloc placement", "DString starting capacity (H1)", "pool slab size (H2)"],
+            "expect_probes": ["obfuscation_draws_before_op", "engine_reused", "parse_substring_nonzero_start", "pool_depth_gt_1", "has_metadata_on_parsed_engine", "pool_cycled"],
+            "sim_time": "each operation sees its own simulated clock value in [1980, 2107]; span reported under seam_events.time_calls"},
 }
 
 DEFAULT_SEED = {"quick": 20261001, "thorough": 20261002}
